@@ -226,7 +226,10 @@ func (s *JavaIdentifierListener) EnterExpression(ctx *parser.ExpressionContext) 
 		statementCtx := ctx.GetParent().(*parser.StatementContext)
 		firstChild := statementCtx.GetChild(0).(antlr.ParseTree).GetText()
 		if strings.ToLower(firstChild) == "return" {
-			currentMethod.IsReturnNull = strings.Contains(ctx.GetText(), "null")
+			// a method is nullable when any of its return statements yields null, not only the last one
+			if strings.Contains(ctx.GetText(), "null") {
+				currentMethod.IsReturnNull = true
+			}
 		}
 	}
 }
